@@ -129,6 +129,26 @@ def class_matches(spec: T, v: Any, mod, ctx: Ctx) -> bool:
     return False
 
 
+class _DictSub(dict):
+    pass
+
+
+class _ListSub(list):
+    pass
+
+
+class _StrSub(str):
+    pass
+
+
+class _IntSub(int):
+    pass
+
+
+class _FloatSub(float):
+    pass
+
+
 def run_union(i: int, label: str, names: List[str], st: infra.Stats):
     nm = Namer()
     pool = alt_pool(nm)
@@ -155,6 +175,21 @@ def run_union(i: int, label: str, names: List[str], st: infra.Stats):
             if key not in seen:
                 seen.add(key)
                 data.append(d)
+    # the same data as instances of subclasses of the JSON classes (OrderedDict, str / int / list subclasses):
+    # every alternative alone accepts them through isinstance, the dispatch must too
+    import collections
+
+    for d in list(data):
+        if type(d) is dict:
+            data.extend([collections.OrderedDict(d), _DictSub(d)])
+        elif type(d) is list:
+            data.append(_ListSub(d))
+        elif type(d) is str:
+            data.append(_StrSub(d))
+        elif type(d) is int:
+            data.append(_IntSub(d))
+        elif type(d) is float and d == d:
+            data.append(_FloatSub(d))
     for coerce in (False, True):
         methods = []
         for j in range(len(alts)):
@@ -230,9 +265,11 @@ def run_union(i: int, label: str, names: List[str], st: infra.Stats):
                         asm = apischema.serialization_method(tps[f"a{j}"])
                         exp_s = ("ok", asm(out))
                     except Exception:
-                        exp_s = None
+                        exp_s = ("exc", None)  # the matching alternative alone refuses the value too
                     break
-                if exp_s is not None and s_u[0] == "ok" and not loose_eq(s_u[1], exp_s[1]):
+                if exp_s is not None and exp_s[0] == "exc":
+                    st.count("value_refused_by_the_matching_alternative_alone")
+                elif exp_s is not None and s_u[0] == "ok" and not loose_eq(s_u[1], exp_s[1]):
                     st.violation(
                         dict(
                             base,
